@@ -61,8 +61,18 @@ pub fn relations(ctx: &Ctx) -> Stats {
         let sc = Scratch::new(ctx, "c15");
         let nrec = rng.usize(1, 25);
         let recs = if group == 3 { nuc_records(&mut rng, nrec, 120) } else { gen_records(&mut rng, nrec, 7, Some(20), 200, 0) };
-        let inp = sc.write("in.fa", &ser::to_fasta(&recs, &SerOpts::plain()));
-        let raw = std::fs::read(&inp).unwrap();
+        // the file may arrive in any container the reader accepts; what is piped to stdin stays plain FASTA
+        let raw = ser::to_fasta(&recs, &SerOpts::plain());
+        let fastq_ok = !recs.is_empty() && recs.iter().all(|r| !r.seq.is_empty());
+        let (data, name): (Vec<u8>, &str) = match rng.below(7) {
+            0 if fastq_ok => (ser::to_fastq(&recs, &SerOpts::plain()), "in.fq"),
+            1 if fastq_ok => (ser::to_fastq(&recs, &SerOpts { wrap: Some(rng.usize(10, 60)), crlf: false, final_newline: rng.chance(1, 2) }), "in.fastq"),
+            2 => (ser::to_fasta(&recs, &SerOpts::random(&mut rng)), "in.fasta"),
+            3 => (ser::gzip(&raw, &ser::GzLayout::Multi(rng.usize(2, 4)), &mut rng), "in.fa.gz"),
+            _ => (raw.clone(), "in.fa"),
+        };
+        st.class(&format!("input container {}", name));
+        let inp = sc.write(name, &data);
         st.case(true, mix(idx) ^ hash_bytes(&raw));
         let viol = |st: &mut Stats, sig: &str, msg: String, argv: &[String]| {
             st.violate(sig, msg, Json::obj().set("argv", Json::s(argv.join(" "))).set("records", recs_json(&recs)));
